@@ -132,3 +132,32 @@ def validate_traces(batch: dict, *, spec="Trace.tla", cfg="Trace.cfg", workers=1
         raise MachineryError(f"trace validator visited {st.get('distinct')} states, expected {expect}")
     st.update({"wall_s": round(wall, 2), "bytes": size, "traces": n, "events": expect - n})
     return fails, st
+
+
+def validate_calls(batch: dict, *, spec="TraceFn.tla", cfg="TraceFn.cfg", workers=16, timeout=900):
+    """Batch validator for grouped function calls (spec/TraceFn.tla and friends).
+    Returns (fails, stats); fails = list of (group, index-in-group, clause)."""
+    d = scratch("fn")
+    path = os.path.join(d, "batch.json")
+    with open(path, "w") as f:
+        json.dump(batch, f, separators=(",", ":"))
+    size = os.path.getsize(path)
+    try:
+        out, wall, rc = run_tlc(spec, cfg, workers=workers, timeout=timeout, env={"TRACE_FILE": path}, heap="12g")
+    finally:
+        shutil.rmtree(d, ignore_errors=True)
+    err = tlc_error(out)
+    if err or violated_invariant(out):
+        raise MachineryError("call validator did not run to completion: " + (err or out[-1500:]))
+    fails = []
+    for m in _FAIL.finditer(out):
+        clause = tuple(x.strip().strip('"') for x in m.group(3).split(","))
+        fails.append((int(m.group(1)), int(m.group(2)), clause))
+    done = {int(m.group(1)) for m in _DONE.finditer(out)}
+    n = len(batch["groups"])
+    missing = [t for t in range(1, n + 1) if t not in done]
+    if missing:
+        raise MachineryError(f"{len(missing)} of {n} call groups were not validated (first: {missing[:5]})\n" + out[-1500:])
+    st = parse_stats(out) or {}
+    st.update({"wall_s": round(wall, 2), "bytes": size, "groups": n, "calls": sum(len(g) for g in batch["groups"])})
+    return fails, st
